@@ -68,7 +68,7 @@ def limb_sampler(f, r):
 
 
 def check_encode(built, f, timeout):
-    name = "default:%s.encode" % f.tag
+    name = CFG[0] + ":%s.encode" % f.tag
     drv = "drv_%s_encode" % f.tag
     r = rng("enc", f.tag)
     ob1 = Obligation(name + ":value", "L", [f.rust + "::encode"],
@@ -111,7 +111,7 @@ def check_encode(built, f, timeout):
 
 def check_decode(built, f, n, timeout):
     L = f.enc_len
-    name = "default:%s.decode_ct[len=%d]" % (f.tag, n)
+    name = CFG[0] + ":%s.decode_ct[len=%d]" % (f.tag, n)
     drv = "drv_%s_decode_%d" % (f.tag, n)
     r = rng("dec", f.tag, n)
     fn = [f.rust + "::decode_ct"]
@@ -206,7 +206,7 @@ def _replay_or_unknown(ob, smp, native_ok, why, f, what, enc=None, neg=None, bui
 
 
 def check_reduce(built, f, n, timeout):
-    name = "default:%s.decode_reduce[len=%d]" % (f.tag, n)
+    name = CFG[0] + ":%s.decode_reduce[len=%d]" % (f.tag, n)
     drv = "drv_%s_decred_%d" % (f.tag, n)
     r = rng("red", f.tag, n)
     fn = [f.rust + "::decode_reduce"]
@@ -262,7 +262,11 @@ def posed(kind, f, n, tier):
     return n <= 64
 
 
-def run(tier, only=None):
+CFG = ["default"]
+
+
+def run_config(tier, cfg="default", features=None, rustflags="", only=None, fields_override=None):
+    CFG[0] = cfg
     t0 = time.time()
     fields = [f for f in F.FIELDS if tier == "thorough" or f.tag in QUICK_FIELDS]
     if only:
@@ -282,7 +286,7 @@ def run(tier, only=None):
                 items.append(("red", f, n))
             else:
                 skipped.append("%s.decode_reduce[len=%d]" % (f.tag, n))
-    built = build(ds, tag="C05-default")
+    built = build(ds, tag="C05-" + cfg, features=features, rustflags=rustflags)
     timeout = 60 if tier == "quick" else 600
 
     def work(it):
@@ -298,12 +302,19 @@ def run(tier, only=None):
         if st == "ok":
             obs.extend(val)
         else:
-            o = Obligation("default:%s.%s[%d]" % (it[1].tag, it[0], it[2]), "L")
+            o = Obligation(CFG[0] + ":%s.%s[%d]" % (it[1].tag, it[0], it[2]), "L")
             o.unknown("%s: %s" % (st, str(val)[:300]))
             obs.append(o)
             if "MachineryError" in str(val):
                 merr = str(val)[:600]
     built.close()
+    return obs, merr, locals()
+
+
+def run(tier, only=None):
+    t0 = time.time()
+    obs, merr, L = run_config(tier, only=only)
+    reds = L.get('reds'); skipped = L.get('skipped', [])
     return finish("C05", tier, obs, t0,
                   functions_encoded=sorted(set(fn for o in obs for fn in o.functions)),
                   bounds={"strict decoding lengths": "0, 1, L-1, L, L+1, 2L (all bytes symbolic at each length)",
